@@ -4,7 +4,7 @@
    every generated design by the check; `assign_value` / `exec` / `apply_nbas` are the IEEE-1364 semantics of Model/VSem.v.
    okn env n : net n has positive width and holds a value inside its width.  val n := getv env (fst n). *)
 From V Require Import Base.Bits Gen.WireOps Gen.Helpers Gen.Prims Gen.Seq Model.VSyntax Model.VSem Model.Inline
-  Proofs.C01.InlineSound Proofs.C01.RegSound.
+  Proofs.C01.InlineSound Proofs.C01.InlineSound2 Proofs.C01.RegSound.
 
 Notation val env n := (getv env (fst n)).
 
@@ -65,6 +65,20 @@ Theorem C01_inline_signedmul_sound : forall env r a b, okn env a -> okn env b ->
   assign_value env l e = SignedMul_propagate (snd a) (snd b) (snd r) (val env a) (val env b).
 Proof. exact inl_smul_sound. Qed.
 
+(* sign extension to a strictly wider result ({0{..}} for equal widths is illegal Verilog: a C03 finding) *)
+Theorem C01_inline_signextend_sound : forall env r a, okn env a -> snd a < snd r -> snd a - 1 < 2 ^ 31 ->
+  forall l e, inl_signextend r a = [(l, e)] -> assign_value env l e = SignExtend_propagate (snd a) (snd r) (val env a).
+Proof. exact inl_signextend_sound. Qed.
+(* concatenation of ANY number >= 1 of operands of ANY widths (both MSBF and LSBF blocks: same emitter, same propagate) *)
+Theorem C01_inline_concat_sound : forall env r ins, ins <> [] -> Forall (okn env) ins -> 0 < snd r ->
+  forall l e, inl_concat r ins = [(l, e)] ->
+  assign_value env l e = ConcatenateMSBF_propagate (snd r) (map (fun n => (snd n, val env n)) ins) /\
+  assign_value env l e = ConcatenateLSBF_propagate (snd r) (map (fun n => (snd n, val env n)) ins).
+Proof. exact inl_concat_sound. Qed.
+Theorem C01_inline_repeat_sound : forall env r i, okn env i -> snd i = 1 -> 0 < snd r ->
+  forall l e, inl_repeat r i = [(l, e)] -> assign_value env l e = Repeat_propagate (snd r) (val env i).
+Proof. exact inl_repeat_sound. Qed.
+
 (* BodyReg vs Reg.clock over EVERY input history (d any width, 1-bit enable, any-width reset, |reset_value| < 2^31):
    the value of rq after each edge equals the value Reg.clock prepares for q, provided rq starts equal to the stored
    value truncated (which `reg rq = reset_value` establishes in Verilog; see C01_reg_powerup_refuted for the simulator side) *)
@@ -115,6 +129,9 @@ Print Assumptions C01_inline_constant_sound.
 Print Assumptions C01_inline_div_sound.
 Print Assumptions C01_inline_mod_sound.
 Print Assumptions C01_inline_signedmul_sound.
+Print Assumptions C01_inline_signextend_sound.
+Print Assumptions C01_inline_concat_sound.
+Print Assumptions C01_inline_repeat_sound.
 Print Assumptions C01_reg_sound_partial.
 Print Assumptions C01_mux2_wide_select_refuted.
 Print Assumptions C01_reg_wide_enable_refuted.
